@@ -15,7 +15,11 @@ EXPLANATION = (
     "canonical forms over opaque sqrt/log. R15.4 subdivision: segment_length bisects at the midpoint, recurses on both "
     "halves, returns the sum, and its stopping test consults both the error and the minimum depth. R15.5 cache coherence: "
     "every Path/Subpath method that rebinds or permutes the segment list, or mutates stored segments in place, invalidates "
-    "the cached length (directly or through a callee; fixed point over the call graph). Not decided: accuracy within "
+    "the cached length (directly or through a callee; fixed point over the call graph). "
+    "The quadratic's collinear fallback (taken when the closed form divides by zero) is checked case by case: a = 0 gives |b|; "
+    "the monotone case needs |b| >= 2|a| and gives |b| - |a|; the turning case gives |a|(k^2/2 - k + 1) with k = |b|/|a| (with a "
+    "lower threshold the turning parabola is measured end to end and the length comes out short). "
+    "Not decided: accuracy within "
     "`error`, isometry invariance as a numeric fact."
 )
 ASSUMPTIONS = [
